@@ -195,7 +195,11 @@ class StateTomography:
                 operations.
 
         """
-        circuit = self.base_circuit.copy()
+        # Add the base circuit to an empty circuit, as in process tomography, so
+        # that heralds set directly on the base circuit do not occupy mode
+        # numbers when the measurement operators are placed on the qubits
+        circuit = Circuit(self.base_circuit.input_modes)
+        circuit.add(self.base_circuit)
         # Check number of circuits is correct
         if len(measurement_operators) != self.n_qubits:
             msg = (
